@@ -76,7 +76,7 @@ class MinMaxAggregator:
     def __init__(self, prg: list[AST], input_predicates: list[Predicate]):
         self.unique_names = UniqueNames(prg, input_predicates)
         self.rule_dependency = RuleDependency(prg)
-        self.domain_predicates = DomainPredicates(self.unique_names, prg)
+        self.domain_predicates = DomainPredicates(self.unique_names, prg, input_predicates)
         # list of ({AggregateFunction.Max, AggregateFunction.Min}, Translation, index)
         #  where index is the position of the variable indicating the minimum/maximum
 
